@@ -248,6 +248,58 @@ Fixpoint map_o {A B} (f : A -> outcome B) (l : list A) : outcome (list B) :=
 (* scan_octets *)
 Definition read_octets (t : tok) : outcome bytes := map_o into_octet (t_syms t).
 
+(* ------------------------------------------------------------------ reader: one token from raw text *)
+
+(* the symbols of the token that starts at [t] (after next_item has classified it; for a
+   quoted token after the opening quote), and the text that follows it: repeated
+   SourceBuf::next_symbol.  An unquoted token ends in front of a non-word character, a
+   quoted one behind the closing quote. *)
+Fixpoint lex (q : bool) (e : esc) (t : text) : outcome (list sym * text) :=
+  match t with
+  | [] => Err E_short
+  | c :: r =>
+      match e with
+      | E0 =>
+          if c =? 92 then lex q E1 r
+          else if q then
+            (if c =? ch_quote then Ok ([], r)
+             else if ascii_limit <=? c then Err E_utf8
+             else do x <- lex q E0 r; Ok (SChar c :: fst x, snd x))
+          else
+            (if ascii_limit <=? c then Err E_utf8
+             else if mem c word_excl then Ok ([], t)
+             else do x <- lex q E0 r; Ok (SChar c :: fst x, snd x))
+      | E1 =>
+          if is_control c then Err E_escape
+          else if negb (is_digit c) then do x <- lex q E0 r; Ok (SEsc c :: fst x, snd x)
+          else lex q (E2 c) r
+      | E2 d1 => if is_digit c then lex q (E3 d1 c) r else Err E_escape
+      | E3 d1 d2 =>
+          if is_digit c then
+            let v := (d1 - 48) * 100 + (d2 - 48) * 10 + (c - 48) in
+            if v <=? 255 then do x <- lex q E0 r; Ok (SDec v :: fst x, snd x) else Err E_escape
+          else Err E_escape
+      end
+  end.
+
+(* SourceBuf::next_ascii_symbol, repeated: the unescaped printable prefix taken verbatim
+   (0x21 ..= 0x7F -- DEL included), and whether a closing quote ended the token *)
+Fixpoint fast_take (q : bool) (t : text) : bytes * text * bool :=
+  match t with
+  | [] => ([], [], false)
+  | c :: r =>
+      if q && (c =? ch_quote) then ([], r, true)
+      else if (c <? fast_lo) || (fast_hi <? c) || (if q then c =? 92 else mem c fast_unquoted_excl) then ([], t, false)
+      else let '(o, rest, cl) := fast_take q r in (c :: o, rest, cl)
+  end.
+
+(* EntryScanner::scan_octets on the text of the token: fast phase, then next_symbol +
+   into_octet for the rest *)
+Definition scan_octets_text (q : bool) (t : text) : outcome (bytes * text) :=
+  let '(pre, rest, closed) := fast_take q t in
+  if closed then Ok (pre, rest)
+  else do x <- lex q E0 rest; do o <- map_o into_octet (fst x); Ok (pre ++ o, snd x).
+
 (* scan_charstr / convert_charstr *)
 Definition read_charstr (t : tok) : outcome bytes :=
   do b <- read_octets t;
@@ -730,6 +782,19 @@ Definition c06_owner (line : text) : outcome (list bytes) :=
   | [t; _; _; _; _] => read_owner None t
   | _ => Err E_tokens
   end.
+(* ". 0 IN HINFO <token> \"\"\n": the first character string, read by scan_charstr =
+   scan_octets with its fast path on the raw text of the token *)
+Definition c06_hinfo (q : bool) (tok : text) : outcome bytes :=
+  let tail := (if q then [ch_quote] else []) ++ [32; 34; 34; ch_lf] in
+  let line := [46; 32; 48; 32; 73; 78; 32; 72; 73; 78; 70; 79; 32] ++ (if q then [ch_quote] else []) ++ tok ++ tail in
+  do ts <- tokenize line;
+  match ts with
+  | [_; _; _; _; _; _] =>
+      do x <- scan_octets_text q (tok ++ tail);
+      if charstr_latest <? len (fst x) then Err E_charstr else Ok (fst x)
+  | _ => Err E_tokens
+  end.
+
 (* ". 0 IN TXT x <layout>\n": the character strings *)
 Definition c06_txt (line : text) : outcome (list bytes) :=
   do ts <- tokenize line;
